@@ -1536,7 +1536,75 @@ pub fn apply(s: &mut Hub, step: &Step, ctx: &mut Ctx) {
     end_of_step(s, ctx, &what);
 }
 
+/// Epilogue (C10, "recorded per epoch"): the owner re-points the collector to a freshly deployed
+/// distributor, whose epoch ids start again at 1; the take recorded for the new epoch 1 must be what the
+/// DAO receives in THAT creation, whatever an earlier distributor's epoch 1 recorded.
+fn replaced_distributor_epilogue(s: &mut Hub, ctx: &mut Ctx) {
+    if !ctx.on("C10") || ctx.stopped() || s.model.dist_switched || !s.model.take_active || s.model.take_rate18 == 0 || s.model.epochs.len() < 2 || s.model.epochs.len() % 2 == 1 {
+        return;
+    }
+    let Some(dao_k) = s.model.dao else { return };
+    let col = s.collector.clone();
+    let old: Result<Coin, String> = query(&s.app, &col, &fee_collector::QueryMsg::TakeRateHistory { epoch_id: Uint64::new(1) });
+    let Ok(old) = old else { return };
+    if old.amount.is_zero() {
+        return;
+    }
+    // something to take from
+    let r = tx(&mut s.app, OWNER, vec![bank_send(&col, 1_000_000, WHALE)], Fault::None);
+    if !r.outcome.is_ok() {
+        return;
+    }
+    let code = s.app.store_code(code::fee_distributor());
+    let now = s.now();
+    let d2 = must_instantiate(
+        &mut s.app,
+        code,
+        OWNER,
+        &fee_distributor::InstantiateMsg {
+            bonding_contract_addr: s.lair.clone(),
+            fee_collector_addr: col.clone(),
+            grace_period: Uint64::new(1),
+            epoch_config: EpochConfig { duration: Uint64::new(DAY_NS), genesis_epoch: Uint64::new(now) },
+            distribution_asset: s.assets[0].clone(),
+        },
+        "fee_distributor_2",
+        None,
+    );
+    let m = wasm_exec(
+        &col,
+        &fee_collector::ExecuteMsg::UpdateConfig { owner: None, pool_router: None, fee_distributor: Some(d2.clone()), pool_factory: None, vault_factory: None, take_rate: None, take_rate_dao_address: None, is_take_rate_active: None },
+        vec![],
+    );
+    let r = tx(&mut s.app, OWNER, vec![m], Fault::None);
+    if !r.outcome.is_ok() {
+        return;
+    }
+    let dao = DAOS[dao_k % 2];
+    let before = balance(&s.app, dao, &s.assets[0]);
+    let r = tx(&mut s.app, OWNER, vec![wasm_exec(&d2, &fee_distributor::ExecuteMsg::NewEpoch {}, vec![])], Fault::None);
+    ctx.op("new_epoch_on_replaced_distributor", r.outcome.kind());
+    if !r.outcome.is_ok() {
+        ctx.probe("replaced_distributor_epoch_refused");
+        return;
+    }
+    let got = balance(&s.app, dao, &s.assets[0]).saturating_sub(before);
+    ctx.eval("C10");
+    ctx.probe("replaced_distributor_epoch_created");
+    let rec: Result<Coin, String> = query(&s.app, &col, &fee_collector::QueryMsg::TakeRateHistory { epoch_id: Uint64::new(1) });
+    match rec {
+        Ok(c) if got > 0 => {
+            if c.amount.u128() != got {
+                ctx.fail("C10", "take_history", "history_ne_amount_after_distributor_replaced", None,
+                    format!("the collector was re-pointed to a new distributor; its epoch 1 paid the DAO {got} but TakeRateHistory[1] = {c} (the previous distributor's epoch 1 had recorded {old})"));
+            }
+        }
+        _ => {}
+    }
+}
+
 pub fn finish(s: &mut Hub, ctx: &mut Ctx) {
+    replaced_distributor_epilogue(s, ctx);
     // history check: every epoch outside the grace window has an empty `available`
     let n = s.model.epochs.len();
     let g = s.model.grace as usize;
